@@ -35,7 +35,8 @@ CONSTANTS L,            \* ring length (log positions 1..L)
           OldTime,      \* 0 / 1: generator may give a transaction a commit time older than its predecessor
           DevReplayPastBadTag, DevScanAbort, DevAsyncLastBadCommit
 
-VARIABLES log,      \* [1..L -> block record]
+VARIABLES jc,       \* configuration the recovery code reads from the journal superblock: [L, csum, async] (= CC in the generator)
+          log,      \* [1..L -> block record]
           head,     \* next log position the writer will use
           nseq,     \* next transaction sequence number
           jsb,      \* [start |-> 0..L, seq |-> Nat]      start = 0: journal empty
@@ -46,7 +47,7 @@ VARIABLES log,      \* [1..L -> block record]
           ndmg,     \* damages applied so far
           phase,    \* "run" | "dmg" | "done"
           res       \* observation of the last Recover: [err, end, devs, reason]
-vars == <<log, head, nseq, jsb, nr, fs, hist, ver, ndmg, phase, res>>
+vars == <<jc, log, head, nseq, jsb, nr, fs, hist, ver, ndmg, phase, res>>
 
 GARBAGE == -1       \* content of a log block that is not a data block / of a target block holding anything else
 BADCS   == -2       \* a tag checksum field that matches no block
@@ -198,10 +199,11 @@ RECURSIVE Covered(_, _, _)        \* what the v1 transaction checksum covers: de
 Covered(s, chunks, k) ==
    IF k > Len(chunks) THEN <<>> ELSE
    (IF chunks[k].t = "d" THEN <<DescOf(s, chunks[k], 10 * s + k)>> \o DataOf(chunks[k]) ELSE <<>>) \o Covered(s, chunks, k + 1)
-TxnBlocks(s, chunks, time, hassum) ==
+TxnBlocksC(cs, s, chunks, time, hassum) ==
    ChunkBlocks(s, chunks, 1)
    \o <<[t |-> "commit", seq |-> s, ok |-> 1, time |-> time, hassum |-> hassum,
-         sum |-> IF Csum = 1 /\ hassum = 1 THEN Covered(s, chunks, 1) ELSE <<>>]>>
+         sum |-> IF cs = 1 /\ hassum = 1 THEN Covered(s, chunks, 1) ELSE <<>>]>>
+TxnBlocks(s, chunks, time, hassum) == TxnBlocksC(Csum, s, chunks, time, hassum)
 RECURSIVE FlatTags(_, _)
 FlatTags(chunks, k) == IF k > Len(chunks) THEN <<>> ELSE (IF chunks[k].t = "d" THEN chunks[k].tags ELSE <<>>) \o FlatTags(chunks, k + 1)
 RECURSIVE FlatRev(_, _)
@@ -239,11 +241,11 @@ WriteTxn(chunks, upto, time, hassum) ==          \* upto = number of blocks that
       /\ head' = Adv(head, upto)
       /\ jsb' = IF jsb.start = 0 THEN [start |-> head, seq |-> nseq] ELSE jsb
       /\ nr' = 1
-      /\ hist' = Append(hist, [seq |-> nseq, tags |-> tags, rev |-> FlatRev(chunks, 1), valid |-> IF upto = full THEN 1 ELSE 0,
+      /\ hist' = Append(hist, [seq |-> nseq, chunks |-> chunks, tags |-> tags, rev |-> FlatRev(chunks, 1), valid |-> IF upto = full THEN 1 ELSE 0,
                                at |-> head, len |-> full, wr |-> upto, time |-> time, hassum |-> hassum, dmg |-> {}])
       /\ nseq' = nseq + 1 /\ ver' = ver + Len(tags)
       /\ phase' = IF upto = full THEN "run" ELSE "dmg"
-      /\ UNCHANGED <<fs, ndmg, res>>
+      /\ UNCHANGED <<jc, fs, ndmg, res>>
 
 \* checkpoint: the oldest transaction is written back to the fs and the tail advances
 Checkpoint ==
@@ -255,7 +257,7 @@ Checkpoint ==
         /\ jsb' = IF Len(hist) = 1 THEN [start |-> 0, seq |-> nseq]
                   ELSE [start |-> hist[2].at, seq |-> hist[2].seq]
         /\ nr' = IF Len(hist) = 1 THEN 0 ELSE 1
-   /\ UNCHANGED <<log, head, nseq, ver, ndmg, phase, res>>
+   /\ UNCHANGED <<jc, log, head, nseq, ver, ndmg, phase, res>>
 
 \* damage to one block that a live transaction wrote.  Only damage that the format can detect is in the universe:
 \* control blocks that are missing (junk) / stale / wrongly sequenced, checksum failures where the scheme has a
@@ -279,10 +281,10 @@ Damage ==
         /\ \E nb \in DamagedBlocks(k, log[p]) : log' = [log EXCEPT ![p] = nb]
         /\ hist' = [hist EXCEPT ![k].valid = 0, ![k].dmg = @ \cup {off}]
    /\ phase' = "dmg" /\ ndmg' = ndmg + 1
-   /\ UNCHANGED <<head, nseq, jsb, nr, fs, ver, res>>
+   /\ UNCHANGED <<jc, head, nseq, jsb, nr, fs, ver, res>>
 
-Final == FinalOf(fs, hist, jsb, Blocks)
-Rec   == RecoverOf(CC, log, jsb, fs)
+Final == FinalOf(fs, hist, jsb, DOMAIN fs)
+Rec   == RecoverOf(jc, log, jsb, fs)
 
 Recover ==
    /\ phase \in {"run", "dmg"} /\ nr = 1
@@ -291,10 +293,10 @@ Recover ==
    /\ nr' = 0                                                                          \* *_clear_recover
    /\ res' = [err |-> Rec.err, end |-> Rec.end, devs |-> Rec.devs, reason |-> Rec.reason, final |-> Final]
    /\ phase' = "done"
-   /\ UNCHANGED <<log, head, nseq, hist, ver, ndmg>>
+   /\ UNCHANGED <<jc, log, head, nseq, hist, ver, ndmg>>
 
 NoRes == [err |-> "", end |-> 0, devs |-> {}, reason |-> "", final |-> <<>>]
-Init == /\ log = [p \in 1..L |-> Junk] /\ head = 1 /\ nseq = 1 /\ jsb = [start |-> 0, seq |-> 1] /\ nr = 0
+Init == /\ jc = CC /\ log = [p \in 1..L |-> Junk] /\ head = 1 /\ nseq = 1 /\ jsb = [start |-> 0, seq |-> 1] /\ nr = 0
         /\ fs = [b \in Blocks |-> 0] /\ hist = <<>> /\ ver = 0 /\ ndmg = 0 /\ phase = "run" /\ res = NoRes
 
 TagChoices == UNION {{tb \in [1..n -> Blocks] : \A i, j \in 1..n : i # j => tb[i] # tb[j]} : n \in 0..MaxTags}
@@ -315,8 +317,37 @@ ReplayExactOrDev == (phase = "done") => ((fs = res.final \/ res.devs # {}) /\ js
 ReplayExactAlways == (nr = 1) => (Rec.fs = Final \/ Rec.devs # {})
 \* the three passes end at the same transaction (no -EIO from "recovery pass ended at ...")
 PassesAgree == (nr = 1) => Rec.err # "EIO"
-\* generator sanity: a valid transaction is in the log exactly as written
-TypeOK == /\ head \in 1..L /\ jsb.start \in 0..L /\ Used <= L
+\* ------------------------------------------------------------------------------------------------
+\* Soundness of the ground truth (checked on generator states and on every journal loaded from a trace):
+\* "valid" is exactly "every block of the transaction is in the log as written", and every block that differs
+\* from what was written differs in a way the format can detect (IsDamageOf mirrors DamagedBlocks).
+Intended(k) == TxnBlocksC(jc.csum, hist[k].seq, hist[k].chunks, hist[k].time, hist[k].hassum)
+Actual(k, i) == log[AdvL(jc.L, hist[k].at, i - 1)]
+IsDamageOf(sc, b, a) ==
+   IF b.t \in {"desc", "revoke", "commit"} THEN
+        \/ a = Junk
+        \/ a.t = b.t /\ a.seq # b.seq /\ a = [b EXCEPT !.seq = a.seq]
+        \/ V23(jc) /\ a = [b EXCEPT !.ok = 0]
+        \/ jc.csum = 1 /\ b.t = "commit" /\ b.hassum = 1 /\ a.t = "commit" /\ a.sum # b.sum /\ a = [b EXCEPT !.sum = a.sum]
+        \/ jc.csum = 1 /\ b.t = "desc" /\ sc /\ a.t = "desc" /\ a.id # b.id /\ a = [b EXCEPT !.id = a.id]
+        \/ V23(jc) /\ b.t = "desc" /\ a.t = "desc" /\ a = [b EXCEPT !.tags = a.tags] /\ Len(a.tags) = Len(b.tags)
+             /\ \A i \in 1..Len(b.tags) : a.tags[i] = b.tags[i] \/ a.tags[i] = [b.tags[i] EXCEPT !.cs = BADCS]
+   ELSE b.t = "data" /\ (V23(jc) \/ (jc.csum = 1 /\ sc)) /\ (a = Junk \/ (a.t = "data" /\ a.v >= STALEV))
+StrongDiff(k) == hist[k].wr < hist[k].len
+                 \/ \E i \in 1..hist[k].wr : Actual(k, i) # Intended(k)[i] /\ IsDamageOf(FALSE, Intended(k)[i], Actual(k, i))
+GroundTruthSound ==
+   \A k \in 1..Len(hist) :
+      /\ Len(Intended(k)) = hist[k].len /\ hist[k].wr \in 1..hist[k].len
+      /\ hist[k].tags = FlatTags(hist[k].chunks, 1) /\ hist[k].rev = FlatRev(hist[k].chunks, 1)
+      /\ (hist[k].valid = 1) = (hist[k].wr = hist[k].len /\ \A i \in 1..hist[k].len : Actual(k, i) = Intended(k)[i])
+      /\ \A i \in 1..hist[k].wr : \/ Actual(k, i) = Intended(k)[i]
+                                  \/ IsDamageOf(hist[k].hassum = 1 \/ StrongDiff(k), Intended(k)[i], Actual(k, i))
+      /\ \A i, j \in 1..Len(hist[k].tags) : i # j => hist[k].tags[i].blk # hist[k].tags[j].blk
+      /\ (k > 1 => hist[k].seq = hist[k - 1].seq + 1 /\ hist[k].at = AdvL(jc.L, hist[k - 1].at, hist[k - 1].wr))
+      /\ (k = 1 /\ jsb.start # 0 => hist[k].seq = jsb.seq /\ hist[k].at = jsb.start)
+      /\ (k < Len(hist) => hist[k].wr = hist[k].len)                      \* only the last transaction may be cut short
+      /\ SumWr(hist, 1) <= jc.L
+TypeOK == /\ head \in 1..L /\ jsb.start \in 0..L /\ Used <= L /\ jc = CC
           /\ \A k \in 1..Len(hist) : hist[k].wr <= hist[k].len
 Bound == nseq <= MaxTxn + 2
 View == <<log, head, nseq, jsb, nr, fs, hist, ver, ndmg, phase>>
